@@ -242,6 +242,11 @@ def _check_geom(dom, spec, ref):
     _req(int(dom.size) == ref["size"] and isinstance(dom.size, (int, np.integer)), "%s|size" % lab,
          "size %r != reference %d" % (dom.size, ref["size"]))
     _req(bool(dom.harmonic) == ref["harmonic"], "%s|harmonic-flag" % lab, "harmonic flag %r" % (dom.harmonic,))
+    if isinstance(dom, ift.GLSpace):
+        # history: the volumes of OTHER grids (same nlat / same nlon) are evaluated first -- whatever the class
+        # remembers from them must not leak into this domain (deterministic, independent of the worker's past)
+        for other in (ift.GLSpace(dom.nlat, dom.nlon + 1), ift.GLSpace(dom.nlat + 1, dom.nlon)):
+            _ = other.dvol, other.total_volume
     dv, sdv, tv = dom.dvol, dom.scalar_dvol, dom.total_volume
     _req(np.isscalar(tv) or _arr(tv).shape == (), "%s|total_volume-not-scalar" % lab, "total_volume is %r" % (tv,))
     # total volume = sum of the reference pixel volumes
